@@ -401,6 +401,23 @@ func checkClear(fam string, before, after spec.SchemaValidations, has bool, ncb 
 	return ""
 }
 
+var clearOrders = func() [][]string {
+	var out [][]string
+	var rec func(rest, acc []string)
+	rec = func(rest, acc []string) {
+		if len(rest) == 0 {
+			out = append(out, append([]string{}, acc...))
+			return
+		}
+		for i := range rest {
+			r2 := append(append([]string{}, rest[:i]...), rest[i+1:]...)
+			rec(r2, append(acc, rest[i]))
+		}
+	}
+	rec([]string{"number", "string", "array", "object"}, nil)
+	return out
+}()
+
 type valsInput struct {
 	Seed uint64 `json:"seed"`
 	Mask int    `json:"mask"`
@@ -457,6 +474,55 @@ func checkValsOne(in valsInput) (string, interface{}) {
 	v2.SetValidations(w)
 	if jsonOf(mv(v2.Validations())) != jsonOf(mv(w)) {
 		return "read(write(v,w)) != w on SchemaValidations", []interface{}{mv(v), mv(w)}
+	}
+	// the four clear operations one after the other, in the order the seed picks among the 24: each is exact from the state
+	// the previous ones left, and together they report every keyword that was present exactly once to every callback
+	{
+		order := clearOrders[int(in.Seed%24)]
+		cur := v
+		cur.CommonValidations = cloneCommon(v.CommonValidations)
+		told := make([]map[string]int, in.Ncb)
+		for i := range told {
+			told[i] = map[string]int{}
+		}
+		for _, fam := range order {
+			prev := cur
+			prev.CommonValidations = cloneCommon(cur.CommonValidations)
+			cbs, calls := recorder(in.Ncb)
+			var has bool
+			switch fam {
+			case "number":
+				cur.ClearNumberValidations(cbs...)
+				has = cur.HasNumberValidations()
+			case "string":
+				cur.ClearStringValidations(cbs...)
+				has = cur.HasStringValidations()
+			case "array":
+				cur.ClearArrayValidations(cbs...)
+				has = cur.HasArrayValidations()
+			default:
+				cur.ClearObjectValidations(cbs...)
+				has = cur.HasObjectValidations()
+			}
+			if msg := checkClear(fam, prev, cur, has, in.Ncb, *calls); msg != "" {
+				return fmt.Sprintf("clear sequence %v, at %s: %s", order, fam, msg), mv(v)
+			}
+			for _, c := range *calls {
+				told[c.cb][c.name]++
+			}
+		}
+		b := kwView(v)
+		for i := range told {
+			for k, val := range b {
+				want := 0
+				if !isZeroView(val) && k != "enum" {
+					want = 1
+				}
+				if k != "enum" && told[i][k] != want {
+					return fmt.Sprintf("clear sequence %v: callback %d told about %s %d times in all, want %d", order, i, k, told[i][k], want), mv(v)
+				}
+			}
+		}
 	}
 	// schema
 	s := genSchemaCarrier(r, in.Mask)
